@@ -85,7 +85,7 @@ def run(rep, ctx):
     rep.rule("R12.7", "spglib is given the analysed structure unmodified with the analyzer's tolerance, and its standardised lattice / positions / types are used without a change of convention (shared with C05)")
     with rep.guard("R12.7"):
         from . import shared as _shb
-        _shb.spglib_boundary(rep, ctx.model, "R12.7")
+        _shb.spglib_boundary(rep, ctx.model, "R12.7", order=True)
     rep.floor("R12.7", 7)
     rep.rule("R12.8", "every tabulated normalizer is an automorphism of its group and an isometry of the lattice (the normalised cell is the same crystal in the same space group; shared with C05/C14)")
     from . import shared as _shn
